@@ -628,6 +628,20 @@ func callSSA(i *interpreter, caller *frame, callpos token.Pos, fn *ssa.Function,
 			}
 		}
 		name := fn.String()
+		if ps.stubTaxHash && name == "github.com/evolbioinfo/gotree/tree.tax_hash" {
+			// stub: an arbitrary (symbolic) 64-bit hash per distinct taxon name
+			nm := concStr(args[0], "tax_hash name")
+			key := "taxhash:" + nm
+			if v, ok := ps.memo[key]; ok {
+				return v
+			}
+			if ps.stubs != nil {
+				ps.stubs[name+" (stub: arbitrary uint64 per distinct name)"] = true
+			}
+			v := mkval(types.Uint64, ps.newInput(key, "taxhash", bvSort(64)))
+			ps.memo[key] = v
+			return v
+		}
 		if ext := externals[name]; ext != nil {
 			if ps.stubs != nil {
 				ps.stubs[name] = true
